@@ -13,6 +13,15 @@ TIMEOUT = 900.0
 SH = [('a',), ('a', ('b',)), ('a', ('b',), ('a',)), ('a', ('b', ('a',)))]
 BATCHES = (1, 2, 3, 4, 1000)
 NAMES = ("n1", "n2", "n3")
+# wave 13: workflow names that relate to each other in unusual ways: equal up
+# to letter case, up to trailing blanks, one a prefix of the other, composed
+# versus decomposed accents, digits whose text order is not their numeric
+# order.  Stores over these names list the traces in every order (not only
+# sorted by name), so that the trace ids of two such names interleave.
+ALIAS_SETS = (("Order", "order", "ORDER"), ("a", "a ", "a_"),
+              ("job", "jo", "job.1"), ("\u00e9", "e\u0301", "e"),
+              ("10", "9", "09"))
+ALIAS_BATCHES = (1, 2, 1000)
 
 
 def build(tier, ctx):
@@ -34,9 +43,19 @@ def build(tier, ctx):
     if tier == "thorough":
         sizes += [(1000, 1000), (1130, 1000), (1251, 1000), (1801, 1000),
                   (1301, 5000), (1301, 400)]
+    alias = []
+    for k, names in enumerate(ALIAS_SETS):
+        if k < (2 if tier == "quick" else len(ALIAS_SETS)):
+            alias += [tuple((nm, SH[1]) for nm in c)
+                      for c in itertools.product(names, repeat=3)
+                      if len(set(c)) > 1]
+        alias += [tuple((nm, SH[2]) for nm in c)
+                  for c in itertools.permutations(names, 2)]
     return [{"scale": [sz], "stores": []} for sz in sizes] + \
         [{"stores": stores[i:i + chunk]}
-         for i in range(0, len(stores), chunk)]
+         for i in range(0, len(stores), chunk)] + \
+        [{"stores": alias[i:i + 4], "batches": list(ALIAS_BATCHES)}
+         for i in range(0, len(alias), 4)]
 
 
 def filters_for(byname):
@@ -56,18 +75,19 @@ def filters_for(byname):
     return f
 
 
-def run_store(store):
+def run_store(store, batches=BATCHES):
     bad = []
     n = hits = 0
     names = {nm for nm, _ in store}
     for shared in ((False, True) if len(names) > 1 else (False,)):
-        k, b, h = run_store_mode(store, shared)
+        k, b, h = run_store_mode(store, shared, batches=batches)
         n += k
         hits += h
         bad += b
     if len(store) <= 2:
         # root spans whose "no parent" is written as the empty string
-        k, b, h = run_store_mode(store, False, empty_root=True)
+        k, b, h = run_store_mode(store, False, empty_root=True,
+                                 batches=batches)
         n += k
         bad += b
     return n, bad, hits
@@ -230,7 +250,7 @@ def handle(task):
         return {"n": n, "bad": out, "boundary_hits": 0, "scale_runs": n}
     for store in task["stores"]:
         store = [(nm, _tt(sh)) for nm, sh in store]
-        k, bad, bh = run_store(store)
+        k, bad, bh = run_store(store, tuple(task.get("batches") or BATCHES))
         n += k
         hits += bh
         for b in bad:
